@@ -109,6 +109,12 @@ def run(argv, keep_stdout=False):
         sys.stdout, sys.stderr = old_out, old_err
         time.sleep = _REAL_SLEEP
     sqlseam.process_exit()
+    pyplot = sys.modules.get("matplotlib.pyplot")
+    if pyplot is not None:
+        try:
+            pyplot.close("all")          # a plot command leaves its figure open; the process would have exited
+        except Exception:  # pylint: disable=broad-except
+            pass
     if status != 0:
         gc.collect()        # drop file objects / frames a failed command left in cycles
     return Outcome(status, exc_type, exc_msg, frame, out.getvalue() if keep_stdout else "", frames)
